@@ -7,8 +7,10 @@
      callers  --queueRequest-->  reqQueue (chan, cap reqQueueSize)
      sendRequestsRoutine:  <-reqQueue ; willSendReq (reqSent.PushBack under cli.mtx) ;
                            WriteMessage into a bufio.Writer ; Flush() on a Flush request
-     flush timer (ThrottleTimer, 20ms): Set() by every non-flush request, Unset() by a flush
-                           request; when it fires the send routine queues a Flush itself
+     flush timer (ThrottleTimer; the code passes flushThrottleMS = 20 as a time.Duration, i.e.
+                           20ns, so it fires "at once"): Set() by every non-flush request,
+                           Unset() by a flush request; when it fires the send routine queues
+                           a Flush itself (select-default: dropped when the queue is full)
      recvResponseRoutine:  ReadMessage ; Exception -> stopForError ; else didRecvResponse:
                            under cli.mtx  head of reqSent must match the response TYPE
                            (the wire carries no ids) ; Response set ; Done() ; removed ;
@@ -25,7 +27,9 @@
    willSendReq is a state of the send routine (sendpc.pc = "have").
 
    As-is behaviour of the code that breaks a property below is behind a switch (TRUE = the
-   code as it is at the pinned commit, FALSE = as repaired by proposed-fixes/ABCI-*.diff):
+   code as it is at the pinned commit, FALSE = as repaired by
+   proposed-fixes/ABCI-socket-client-stop-races.diff).  All three were found by TLC on this
+   spec and then observed on the real code (panic; caller blocked for ever):
      Weak_FlushQueueKeepsSent   flushQueue leaves the released ReqRes in reqSent: a response
                                 still buffered in the bufio.Reader is matched against it and
                                 Done() is called a second time -> panic (negative WaitGroup)
@@ -33,6 +37,10 @@
                                 to reqSent after it is never released
      Weak_DeadQueueBlocks       requests queued after the stop are never released and the
                                 (QCap+1)-th call blocks for ever
+                                repaired: queueRequest selects on Quit() and, when it finds the
+                                client stopped after a successful send, drains reqQueue itself
+                                (Drain); willSendReq releases instead of tracking when the client
+                                is stopped; flushQueue empties reqSent
    Deliberate deviations of the model (named):
      Dev_SetErrAtomic   stopForError's IsRunning check, "err = e" and the CAS in Stop() are one
                         step (the code can interleave two failing routines between them; only
